@@ -444,6 +444,9 @@ func c20Scripts(r *rng, n int, thorough bool) []c20Case {
 	add("join through a follower whose leader has just been cut off",
 		c20Op{Kind: "boot", Node: 1}, c20Op{Kind: "join", Node: 2, Via: 1}, c20Op{Kind: "join", Node: 3, Via: 1}, c20Op{Kind: "settle"},
 		c20Op{Kind: "cut", Node: 1}, c20Op{Kind: "join", Node: 4, Via: 2}, c20Op{Kind: "heal"})
+	add("a member compacts its membership log, then a node is removed, then that member restarts: it loads the snapshot (which still lists the node) and replays the removal",
+		c20Op{Kind: "boot", Node: 1}, c20Op{Kind: "join", Node: 2, Via: 1}, c20Op{Kind: "join", Node: 3, Via: 1}, c20Op{Kind: "settle"},
+		c20Op{Kind: "snapshot", Node: 2}, c20Op{Kind: "remove", Node: 3}, c20Op{Kind: "settle"}, c20Op{Kind: "restart", Node: 2}, c20Op{Kind: "settle"})
 	add("a removed node joins again through a member that is cut off and has not yet applied the removal; the network heals and the handshake is repeated",
 		c20Op{Kind: "boot", Node: 1}, c20Op{Kind: "join", Node: 2, Via: 1}, c20Op{Kind: "join", Node: 3, Via: 1}, c20Op{Kind: "settle"},
 		c20Op{Kind: "cut", Node: 2}, c20Op{Kind: "remove", Node: 3}, c20Op{Kind: "join", Node: 3, Via: 2}, c20Op{Kind: "heal"}, c20Op{Kind: "settle"},
